@@ -372,7 +372,13 @@ func TestC07(t *testing.T) {
 		if kindName == "announce" && len(data) > parts.apxStart {
 			graftW = 6 // the announcement reached the victim over a relay: it carries hop records
 		}
-		alt := c.Weighted("alter", 4, 10, 4, 3, 3, 4, 4, graftW)
+		// Two copies at once: only for pings addressed to the victim alone (copies
+		// of flooded pings are tolerated by design).
+		parW := 0
+		if stillUnicast := netip.AddrFrom16([16]byte(data[32:48])) == V.IP(); stillUnicast {
+			parW = 5
+		}
+		alt := c.Weighted("alter", 4, 10, 4, 3, 3, 4, 4, graftW, parW)
 		altName := "genuine"
 		authentic := true // whether the delivered message is still authentic as X's
 		replay := false
@@ -467,6 +473,51 @@ func TestC07(t *testing.T) {
 			}
 		}
 		c.Note("kind=%s alteration=%s authentic=%v keyed=%v", kindName, altName, authentic, xKeyed())
+
+		if alt == 8 {
+			// The genuine ping reaches the victim twice at the same moment (two
+			// links, two workers); one worker is held at a generated schedule point
+			// while the other runs. At most one copy may be processed; afterwards
+			// the two routers must not both hold keys that do not fit.
+			at := core.OneOf(c, "par.point", "", "instance.Identity", "instance.State", "instance.Config", "storage.GetRouter", "instance.RoutingTable")
+			skip := c.Int("par.call", 0, 4)
+			if at == "" {
+				V.Gate.Arm(c.Int("par.any-call", 0, 12))
+			} else {
+				V.Gate.ArmAt(at, skip)
+			}
+			res, held, ok := ms.vn.InjectPar(V, []*vnet.VLink{link, link}, [][]byte{data, append([]byte(nil), data...)})
+			if !ok {
+				c.Class("inconclusive-workers-did-not-finish")
+				return
+			}
+			if res.Panicked {
+				c.Fatalf("two copies of a %s ping at once panicked a worker of the victim: %v", kindName, ms.vn.Panics)
+			}
+			processed := res.Escalated - len(res.RouterErrs)
+			if processed > 1 {
+				c.Fatalf("two copies of one %s ping handled by two workers at once: both were processed (held at %q, handler errors %v)", kindName, V.Gate.Point, res.RouterErrs)
+			}
+			env.deliverAll()
+			sV, sX := V.St.GetSession(X.IP()), X.St.GetSession(V.IP())
+			if sV != nil && sX != nil && sV.Encryption().IsSetUp() && sX.Encryption().IsSetUp() {
+				w := &c14World{c: c, vn: ms.vn, n: [2]*vnet.Node{X, V}}
+				for from := 0; from < 2; from++ {
+					if err := w.traffic(from); err != nil {
+						c.Fatalf("after two copies of one %s ping were handled at once (held at %q), both routers consider encryption established but traffic from %s does not unseal at the other: %v", kindName, V.Gate.Point, w.n[from].Name, err)
+					}
+				}
+			}
+			if held {
+				c.Class("two-copies-at-once/held-at-" + V.Gate.Point)
+			}
+			c.Class("two-copies-at-once/" + kindName)
+			c.Eval(fmt.Sprintf("par|%s|%v|%s", kindName, firstContact, V.Gate.Point), held, func() any {
+				return map[string]any{"kind": kindName, "alteration": "two copies at once", "held_at": V.Gate.Point, "processed": processed, "first_contact": firstContact}
+			})
+			ms.vn.Queue = nil
+			return
+		}
 
 		if replay {
 			// Deliver the genuine one, then 0..n other legitimate pings, then the copy.
